@@ -400,7 +400,7 @@ def run_case(ctx: Ctx, case: dict) -> None:
 
 
 def check(ctx: Ctx) -> None:
-    n = ctx.n(24, 540)
+    n = ctx.n(22, 540)
     for cls in CLASSES:
         ctx.given(cases(cls, long=ctx.thorough), lambda c: run_case(ctx, c), n)
 
